@@ -186,6 +186,7 @@ def rule_2(ctx):
             env = {tokname: Rec(**itok), stackname: [Rec(**ttok)], 'self': Rec()}
             it = Interp(ctx.a, m, env, effect_receivers=(stackname,), record_unknown=True, self_class='pkg:parser:FormulaParser',
                         scope_fn=fn, call_models=_node_models())
+            it.while_once = True        # the pop loop's guard is the decision: one guarded iteration on the abstract stack top
             # evaluate the arm's own test first: operator tokens must reach this arm
             entered = it.truth(it.ev(arm.test))
             construct = f'pop-guard[top={top!r},incoming={inc!r}]'
@@ -211,6 +212,7 @@ def rule_2(ctx):
         env = {tokname: Rec(**kinds['+']), stackname: [Rec(**ttok)], 'self': Rec()}
         it = Interp(ctx.a, m, env, effect_receivers=(stackname,), record_unknown=True, self_class='pkg:parser:FormulaParser',
                         scope_fn=fn, call_models=_node_models())
+        it.while_once = True
         out = it.run(arm.body)
         ctx.expect(not (out.called(f'{stackname}.pop') and out.loop_entered), wh,
                    f'pop-guard[top={label},incoming=+]',
@@ -647,6 +649,38 @@ def rule_6(ctx):
                'the tokenizer never emits an operator-postfix token: "%" is rewritten to "* 0.01" '
                '(precedence of *) or folded into the preceding text with float(), so the precedence '
                'class of % cannot apply (=2^(A1)% ; =A1% raises ValueError)')
+    # decision table of the branch on a number literal: `50%` must stay ONE operand (value/100) or become operand + postfix operator;
+    # an infix operator emitted here gives the literal the precedence of that operator (=8/50% would be 8/50*0.01)
+    consts = _tok_consts(ctx)
+    tokvars = {c.func.value.id for c in ast.walk(pct[0]) if isinstance(c, ast.Call) and isinstance(c.func, ast.Attribute)
+               and c.func.attr == 'add' and isinstance(c.func.value, ast.Name)}
+    if len(tokvars) != 1:
+        raise Unmodelled(f'percent branch adds tokens to {sorted(tokvars)}')
+    listvar = tokvars.pop()
+    textvars = {a.id for c in ast.walk(pct[0]) if isinstance(c, ast.Call) and isinstance(c.func, ast.Name) and c.func.id == 'len'
+                for a in c.args if isinstance(a, ast.Name)}
+    textvar = textvars.pop() if len(textvars) == 1 else 'token'
+
+    class _Out(PyModel):
+        def __init__(self):
+            self.added = []
+
+        def add(self, value, ttype, subtype=''):
+            self.added.append((value, ttype))
+            return Rec(tvalue=value, ttype=ttype, tsubtype=subtype)
+    for literal in ('50', '2.5'):
+        sink = _Out()
+        env = {listvar: sink, textvar: literal, 'formula': literal + '%', 'offset': len(literal), 'self': Rec(cls='pkg:tokenizer:ExcelParser')}
+        it = Interp(ctx.a, tm, env, self_class='pkg:tokenizer:ExcelParser', scope_fn=fn)
+        it.run([pct[0]])
+        kinds_ = [t for _, t in sink.added]
+        folded = len(sink.added) == 1 and kinds_ == [consts['TOK_TYPE_OPERAND']] and isinstance(sink.added[0][0], (int, float)) \
+            and Fraction(str(sink.added[0][0])) == Fraction(literal) / 100
+        postfix = kinds_ == [consts['TOK_TYPE_OPERAND'], consts['TOK_TYPE_OP_POST']]
+        ctx.expect(folded or postfix, pct[0], f'percent after the number literal {literal}: one operand or operand + postfix operator',
+                   f'"{literal}%" is tokenized as {sink.added!r}: a percent literal must stay a single operand ({literal}/100) or carry a postfix '
+                   f'operator; with an infix operator it takes that operator\'s precedence (=8/{literal}% evaluates as 8/{literal}*0.01, '
+                   f'=4^{literal}% as 4^{literal}*0.01)')
     # percent factors agree (1/100 everywhere)
     factors = []
     for c in ast.walk(pct[0]):
@@ -668,7 +702,7 @@ def rule_6(ctx):
     for node, f in factors:
         ctx.expect(f == Fraction(1, 100), node, f'percent factor line-role {type(node).__name__}',
                    f'percent factor is {f}, not 1/100')
-    ctx.floor(3, 'postfix emission + percent factors')
+    ctx.floor(5, 'postfix emission + literal table + percent factors')
 
 
 def rule_7(ctx):
